@@ -120,4 +120,18 @@ __CPROVER_requires(__CPROVER_is_fresh(cfg, sizeof(*cfg)) && name == cfgv_asked)
 __CPROVER_requires(cfg->opts == NULL || (CFGV_NAMED(cfg->opts) && CFGV_FIRST(cfg)))
 __CPROVER_assigns()
 __CPROVER_ensures(__CPROVER_return_value == ((cfg->opts && cfgv_first < cfgv_term_k) ? &cfg->opts[cfgv_first] : NULL));
+/* contract::cfg_print_pff_indent - every entry of the option array is dealt with exactly once, in declaration order:
+ * the effective filter (the context's own, else the inherited one) is asked first if there is one, and exactly the
+ * entries it does not reject go to the option printer, with the effective filter, the same stream and the same depth; the
+ * result is the sum of the option printer's results.  The order / once / arguments part is checked by the monitor in the
+ * carriers (harness/dfcc.c, carriers/dfcc_print_carriers.c: assertions), the contract says that the monitor ends at the
+ * terminator.  Filter verdicts and printer results are arbitrary per entry.  Frame: the monitor only. */
+extern int cfgv_pos, cfgv_sum, cfgv_depth; extern _Bool cfgv_fasked; extern cfg_t *cfgv_pc; extern FILE *cfgv_fp; extern cfg_print_filter_func_t cfgv_eff;
+int cfgv_filter_own(cfg_t *cfg, cfg_opt_t *opt); int cfgv_filter_inh(cfg_t *cfg, cfg_opt_t *opt);
+static int cfg_print_pff_indent(cfg_t *cfg, FILE *fp, cfg_print_filter_func_t fb_pff, int indent)
+__CPROVER_requires(__CPROVER_is_fresh(cfg, sizeof(*cfg)) && CFGV_OPTARRAY(cfg->opts) && cfg == cfgv_pc && fp == cfgv_fp && indent == cfgv_depth)
+__CPROVER_requires((cfg->pff == NULL || cfg->pff == cfgv_filter_own) && (fb_pff == NULL || fb_pff == cfgv_filter_inh))
+__CPROVER_requires(cfgv_eff == (cfg->pff ? cfg->pff : fb_pff) && cfgv_pos == 0 && !cfgv_fasked && cfgv_sum == 0)
+__CPROVER_assigns(cfgv_pos, cfgv_fasked, cfgv_sum)
+__CPROVER_ensures(cfgv_pos == cfgv_term_k && !cfgv_fasked && __CPROVER_return_value == cfgv_sum);
 #endif
